@@ -26,7 +26,7 @@ CLASSES = ["honest", "honest", "honest", "honest_junk", "replay_current", "rollb
            "insufficient_old", "insufficient_new", "type_confused", "malformed", "corrupted_sigs", "wrong_payload_sigs",
            "replayed_signatures", "replayed_signatures", "draft_threshold_above_keys", "draft_threshold_above_keys",
            "superset_takeover", "superset_takeover", "same_keys_lower_threshold_by_outsider", "raw_shaped_entries_under_root_keys",
-           "raw_shaped_entries_under_root_keys", "decoy_root_role", "insider_respelled_entries", "insider_respelled_entries"]
+           "raw_shaped_entries_under_root_keys", "decoy_root_role", "insider_respelled_entries", "insider_respelled_entries", "duplicate_key_in_offered_rule", "duplicate_key_in_offered_rule"]
 
 
 def plan(tier, seed):
@@ -141,6 +141,18 @@ def gen_offer(cls, trusted, accepted_log, rng):
         rng.shuffle(items)
         off["signatures"] = dict(items)
         return off, True
+    if cls == "duplicate_key_in_offered_rule":
+        # signed by everything both rules ask for, but the offered root's own key list names one key twice (adjacent or not): such a
+        # list is malformed - stepping into it would let that key count twice later on
+        base = list(K2) if len(K2) >= 2 else list(K2) + (outsiders[:1] or [gkeys.key(31)])
+        dup = base[0]
+        ks = rng.choice([[dup] + base[1:] + [dup], [dup, dup] + base[1:], base + [dup]])
+        signers2 = list({k.hex: k for k in need_old + base}.values())
+        off = rootchain.signed_root(v + 1, base, min(2, len(base)), signers2, rng)
+        off["signed"]["delegations"]["root"]["pubkeys"] = [k.hex for k in ks]
+        data = canonjson.canon(off["signed"])
+        off["signatures"] = {k.hex: rootchain.gpg_entry(k, data, rng) for k in signers2}
+        return off, False
     if cls == "decoy_root_role":
         att = outsiders[:1] or [gkeys.key(29)]
         off = rootchain.signed_root(v + 1, K2, t2, [], rng, extra=None)
